@@ -21,12 +21,23 @@ def split_nl(text: str):
     return lines
 
 
-def _same(src_line, content, is_last):
+def _same(src_line, content, is_last, last_diff_line=False):
     if src_line == content:
         return True
     # a last line without terminator is shown with one in the diff
     if is_last and not src_line.endswith("\n") and src_line + "\n" == content:
         return True
+    # the diff text itself may lack a final newline: its last line then shows a terminated source line without one
+    if last_diff_line and not content.endswith("\n") and src_line == content + "\n":
+        return True
+    # last line of the file: at most one final line terminator (\n, \r\n or, in a CR-terminated file, \r) may differ
+    if is_last:
+        # the "\n" at the end of a diff line may be the artefact added when diff lines are joined
+        cands = {content, strip_one_final_newline(content)}
+        if content.endswith("\n"):
+            cands |= {content[:-1], strip_one_final_newline(content[:-1])}
+        if src_line in cands or strip_one_final_newline(src_line) in cands:
+            return True
     return False
 
 
@@ -60,15 +71,25 @@ def apply_unified(diff_text: str, before_text: str) -> str:
         while i < n and (used_old < b or used_new < d):
             h = dl[i]
             tag, content = h[:1], h[1:]
+            last_dl = i == n - 1
+            if content == "" and last_dl and tag in (" ", "-", "+"):
+                # artefact of diffing text.split("\n") lists: the empty string after the final newline shows up as a
+                # phantom last line without terminator. It only encodes the presence of a final newline.
+                if tag in (" ", "-"):
+                    used_old += 1
+                if tag in (" ", "+"):
+                    used_new += 1
+                i += 1
+                continue
             if tag == " ":
-                if pos >= len(src) or not _same(src[pos], content, pos == len(src) - 1):
+                if pos >= len(src) or not _same(src[pos], content, pos == len(src) - 1, last_dl):
                     raise PatchError(f"context mismatch at source line {pos + 1}: {content[:60]!r}")
                 out.append(src[pos])
                 pos += 1
                 used_old += 1
                 used_new += 1
             elif tag == "-":
-                if pos >= len(src) or not _same(src[pos], content, pos == len(src) - 1):
+                if pos >= len(src) or not _same(src[pos], content, pos == len(src) - 1, last_dl):
                     raise PatchError(f"removed line mismatch at source line {pos + 1}: {content[:60]!r}")
                 pos += 1
                 used_old += 1
@@ -91,7 +112,7 @@ def apply_unified(diff_text: str, before_text: str) -> str:
 def strip_one_final_newline(s: str) -> str:
     if s.endswith("\r\n"):
         return s[:-2]
-    if s.endswith("\n"):
+    if s.endswith("\n") or s.endswith("\r"):
         return s[:-1]
     return s
 
